@@ -372,6 +372,13 @@ func (sc *SubCache[EntityT, ExcerptT, CacheT]) Resolve(id entity.Id) (CacheT, er
 	cached = sc.makeCached(e, sc.entityUpdated)
 
 	sc.mu.Lock()
+	if loaded, ok := sc.cached[id]; ok {
+		// someone else loaded the same entity while we were reading it: there must be
+		// a single instance of it, or edits made through the others would be lost
+		sc.lru.Get(id)
+		sc.mu.Unlock()
+		return loaded, nil
+	}
 	sc.cached[id] = cached
 	sc.lru.Add(id)
 	sc.mu.Unlock()
